@@ -6,7 +6,7 @@ for d in seeded/${1:-*}/; do
   name=$(basename "$d")
   prop=$(python3 -c "import json;print(json.load(open('$d/meta.json'))['property'])")
   chk=$prop
-  case "$name" in C08-m2|C08-m6) chk=C12;; C08-m7) chk=C14;; esac
+  case "$name" in C08-m2|C08-m6) chk=C12;; C08-m7) chk=C14;; C07-m9) chk=C03;; esac
   out=$(SKIP_TESTS=1 VERIF_CASE_BUDGET_S=${VERIF_CASE_BUDGET_S:-200} timeout 2400 tools/try_seed.sh $chk "$PWD/$d" quick 2>&1)
   v=$(echo "$out" | grep -c "^VIOLATION")
   i=$(echo "$out" | grep -c "^INCONCLUSIVE")
